@@ -242,6 +242,8 @@ static int json_patch_apply_move_copy(struct json_object **res,
 	struct json_object *value = NULL;
 	const char *from_s;
 	size_t from_s_len;
+	void *array_set_priv;
+	int add = 1; // a copy inserts into an array, like "add"
 	int rc;
 
 	if (!json_object_object_get_ex(patch_elem, "from", &jfrom)) {
@@ -262,18 +264,26 @@ static int json_patch_apply_move_copy(struct json_object **res,
 	}
 
 	from_s_len = strlen(from_s);
-	if (strncmp(from_s, path, from_s_len) == 0) {
+	if (move && strncmp(from_s, path, from_s_len) == 0) {
 		/**
-		 * If lengths match, it's a noop, if they don't,
+		 * "from" is a prefix of "path" as a string.
+		 * If the lengths match, it's a noop.  If "path" goes on with
+		 * another reference token (or "from" is the whole document),
 		 * then we're trying to move a parent under a child
 		 * which is not allowed as per RFC 6902 section 4.4
 		 *   The "from" location MUST NOT be a proper prefix of the "path"
 		 *   location; i.e., a location cannot be moved into one of its children.
+		 * Otherwise the two merely share some characters of a token,
+		 * e.g. "/a" and "/ab".  RFC 6902 section 4.5 has no such
+		 * restriction for "copy" (which places a copy of the value as
+		 * it is before the operation).
 		 */
-		if (from_s_len == strlen(path))
+		if (path[from_s_len] == '\0')
 			return 0;
-		_set_err(EINVAL, "Invalid attempt to move parent under a child");
-		return -1;
+		if (path[from_s_len] == '/' || from_s_len == 0) {
+			_set_err(EINVAL, "Invalid attempt to move parent under a child");
+			return -1;
+		}
 	}
 
 	rc = json_pointer_get_internal(*res, from_s, &from);
@@ -283,8 +293,8 @@ static int json_patch_apply_move_copy(struct json_object **res,
 		return rc;
 	}
 
-	// Note: it's impossible for json_pointer to find the root obj, due
-	// to the path check above, so from.parent is guaranteed non-NULL
+	// Note: for a move it's impossible for json_pointer to find the root obj,
+	// due to the path check above, so from.parent is guaranteed non-NULL
 
 	if (!move) {
 		/*
@@ -298,6 +308,7 @@ static int json_patch_apply_move_copy(struct json_object **res,
 			return -1;
 		}
 		array_set_cb = json_object_array_insert_idx_cb;
+		array_set_priv = &add;
 	} else {
 		value = json_object_get(from.obj);
 		rc = __json_patch_apply_remove(&from);
@@ -306,9 +317,10 @@ static int json_patch_apply_move_copy(struct json_object **res,
 			return rc;
 		}
 		array_set_cb = json_object_array_move_cb;
+		array_set_priv = &from;
 	}
 
-	rc = json_pointer_set_with_array_cb(res, path, value, array_set_cb, &from);
+	rc = json_pointer_set_with_array_cb(res, path, value, array_set_cb, array_set_priv);
 	if (rc)
 	{
 		_set_err(errno, "Failed to set value at path referenced by 'path' field");
